@@ -1,6 +1,6 @@
 #!/bin/bash
 # usage: run_all_quick.sh [repo-dir]   - runs the 20 quick checks (4 at a time) and prints one line each
-cd /verif
+cd "$(dirname "$(readlink -f "$0")")/.."
 export VERIF_REPO=${1:-/repo}
 mkdir -p out/all
 printf "%s\n" C01 C02 C03 C04 C05 C06 C07 C08 C09 C10 C11 C12 C13 C14 C15 C16 C17 C18 C19 C20 | \
